@@ -69,6 +69,7 @@ type Term struct {
 	hi   uint64
 	sent bool // defined in the solver (global define-fun)
 	size int
+	dep  uint8 // bit 0: depends on the virtual clock; bit 1: on an unspecified append capacity
 }
 
 var (
@@ -103,7 +104,16 @@ func mk(op Op, w int, c uint64, name string, a ...*Term) *Term {
 	}
 	t := &Term{op: op, w: w, a: a, c: c, name: name, id: len(termList)}
 	t.size = 1
+	if op == OpVar {
+		if strings.HasPrefix(name, "clock.") {
+			t.dep |= 1
+		}
+		if strings.HasPrefix(name, "appendcap") {
+			t.dep |= 2
+		}
+	}
 	for _, x := range a {
+		t.dep |= x.dep
 		t.size += x.size
 		if t.size > 1<<30 {
 			t.size = 1 << 30
